@@ -350,6 +350,28 @@ func (e *kvElection) attemptAcquireWithRetry(ctx context.Context) {
 	}
 }
 
+var errAcquireAnswerTooLate = fmt.Errorf("acquisition succeeded but its answer arrived after the record's TTL: the record may have expired already")
+
+// answerOutlivedLease reports whether the successful answer to an acquiring
+// store call issued at issuedAt arrived so late that the record it wrote may
+// have expired again (the record lives for TTL from the moment the store
+// applied the write, which is not before issuedAt). Such an acquisition must
+// not start a term: nobody has refreshed the record, and another acquisition -
+// of this very instance or of a different one - may own the key by now.
+func (e *kvElection) answerOutlivedLease(issuedAt time.Time) bool {
+	if e.cfg.TTL <= 0 || time.Since(issuedAt) < e.cfg.TTL {
+		return false
+	}
+	log := e.getLogger()
+	log.Warn("acquire_answer_after_ttl_ignored",
+		append(e.logWithContext(e.context()),
+			zap.Duration("answer_after", time.Since(issuedAt)),
+			zap.Duration("ttl", e.cfg.TTL),
+		)...,
+	)
+	return true
+}
+
 var errNotRecordOwner = fmt.Errorf("leadership record is no longer owned by this instance")
 
 // ownsRecord reads the record and reports whether it still carries this
@@ -404,7 +426,11 @@ func (e *kvElection) attemptAcquire() error {
 		opts = append(opts, e.cfg.TTL)
 	}
 
+	issuedAt := time.Now()
 	rev, err := e.kv.Create(e.key, payloadBytes, opts...)
+	if err == nil && e.answerOutlivedLease(issuedAt) {
+		return errAcquireAnswerTooLate
+	}
 	if err != nil {
 		// Key exists - check if we should attempt priority takeover
 		if e.cfg.AllowPriorityTakeover && e.cfg.Priority > 0 {
@@ -599,7 +625,11 @@ func (e *kvElection) attemptPriorityTakeover(payloadBytes []byte) error {
 		return ErrAlreadyStopped
 	}
 
+	issuedAt := time.Now()
 	newRev, err := e.kv.Update(e.key, payloadBytes, entry.Revision())
+	if err == nil && e.answerOutlivedLease(issuedAt) {
+		return errAcquireAnswerTooLate
+	}
 	if err != nil {
 		// Update failed - revision mismatch means someone else changed it
 		// This could mean:
